@@ -207,10 +207,21 @@ def record_and_validate(run, scratch, ntraces):
     aln = make_aligned_seqs({"a": "ACGTACGTTGCAACGTAAATGCCATTAGGA", "b": "ACGTACATTGCAACTTGAATGCTATTAGCA", "c": "ACCTACGTTGAAATGTGAATACCATCAGGA"}, moltype="dna")
     settings = [dict(local=True, max_evaluations=60), dict(local=False, max_evaluations=80, global_tolerance=1.0), dict(local=True)]
     runs = 0
+    aln2 = make_aligned_seqs({"a": "TTGACCAGTACAGGA", "b": "TTGACTAGTACAGCA", "c": "TAGACCAGTGCAGGA"}, moltype="dna")
     while len([r for r in rec.calcs.values() if r["events"]]) < ntraces and runs < ntraces * 3:
         model = ["F81", "HKY85", "TN93"][runs % 3]
-        lf = get_model(model).make_likelihood_function(tree)
-        lf.set_alignment(aln)
+        shape = runs % 5
+        if shape == 3:
+            # site classes along a site-HMM: the calculator's DAG gains the bin dimension, bprobs, switch and the HMM cell
+            lf = get_model(model, ordered_param="rate", distribution="gamma").make_likelihood_function(tree, bins=2, sites_independent=False)
+            lf.set_alignment(aln)
+        elif shape == 4:
+            # two loci sharing the tree (SumDefn over loci)
+            lf = get_model(model).make_likelihood_function(tree, loci=["x", "y"])
+            lf.set_alignment([aln, aln2])
+        else:
+            lf = get_model(model).make_likelihood_function(tree)
+            lf.set_alignment(aln)
         if model != "F81" and runs % 2:
             lf.set_param_rule("kappa" if model == "HKY85" else "kappa_y", is_independent=True)
         lf.optimise(show_progress=False, limit_action="ignore", **settings[runs % len(settings)])
